@@ -408,6 +408,8 @@ def r3_nothing_else_depends_on_flag(w):
     # who-may-reorder: every other order-changing call in the crate
     known = {('pretty::code_chain', 'reverse'): 'innermost-last chain walk turned back into source order',
              ('pretty::layout::chain', 'reverse'): 'innermost-last chain walk turned back into source order'}
+    known.update({(k[0], 'rev'): v for k, v in list(known.items())})      # `.into_iter().rev()` is the same normalisation
+    present = set()
     for (b, bi, t, p, m) in order_changing_calls(w, core):
         if m in SORTS and b.id in sort_fns:
             continue
@@ -416,6 +418,7 @@ def r3_nothing_else_depends_on_flag(w):
         if (mod, m) in known:
             ok, why = _reverse_is_chain_normalisation(w, b, bi, t)
             if ok:
+                present.add(mod)
                 r.ok(cons, known[(mod, m)])
             else:
                 r.bad(cons, '%s|reorder|%s' % (b.short, m), 'order-changing `%s` in %s: %s' % (m, b.short, why), b.loc(t['span']))
@@ -423,6 +426,13 @@ def r3_nothing_else_depends_on_flag(w):
             r.bad(cons, '%s|reorder|%s' % (b.short, m),
                   'order-changing operation `%s` in %s is not one of the confirmed instances (import sort, chain reversal): source order of nodes may change' % (p, b.short),
                   b.loc(t['span']))
+    # ... and the normalisations have to be there: the chain walkers yield the innermost node last
+    for mod in sorted({k[0] for k in known}):
+        cons = {'module': mod, 'op': 'reverse of the collected chain'}
+        if mod in present:
+            continue
+        r.bad(cons, '%s|reorder|missing-reverse' % mod,
+              'the chain collected in %s is no longer reversed: the walkers yield the innermost node last, so the chain would be emitted back to front' % mod)
     return r
 
 
